@@ -567,6 +567,9 @@ func (e *env) run() error {
 			}
 			hadPending := len(ws.PendTS) > 0
 			if _, err := e.writers[op.W].Commit(); err != nil {
+				if os.Getenv("VERIF_C07_DEBUG") != "" {
+					fmt.Printf("C07DEBUG %s: Commit returned %v\n", where, err)
+				}
 				e.rep.Discard("commit-error")
 				e.rep.Add("discard:commit:"+errText(err), 1)
 				return nil
@@ -970,6 +973,13 @@ func executeOnce(sc Script, rep *kit.Report) (error, bool) {
 		if os.Getenv("VERIF_C07_HANGS") != "" {
 			b, _ := json.Marshal(sc)
 			fmt.Printf("HANG-SCRIPT %s\n", b)
+			var sb strings.Builder
+			_ = pprof.Lookup("goroutine").WriteTo(&sb, 1)
+			for _, blk := range strings.Split(sb.String(), "\n\n") {
+				if strings.Contains(blk, "c07_test.(*env).run") {
+					fmt.Printf("HANG-STACK %s\n", blk)
+				}
+			}
 		}
 		return nil, true
 	}
